@@ -272,6 +272,8 @@ pub fn run(prop: &str, tier: &str, replay: Option<&str>) -> i32 {
     }
     if prop == "C05" {
         c05_extras(&mut rep, &judge, thorough);
+        #[cfg(feature = "crypto")]
+        c05_strict(&mut rep, thorough);
         super::c07::add_sections(&mut rep, prop, thorough, true);
         super::c08::add_sections(&mut rep, prop, thorough, true);
     }
@@ -380,6 +382,69 @@ fn c05_extras(rep: &mut Report, judge: &Judge, thorough: bool) {
         }
     });
     rep.add(sec);
+}
+
+/// C05 cross-check: OpenSSL with X509_V_FLAG_X509_STRICT (an independent implementation of much of the
+/// same profile) must accept every conformant CA -> leaf pair of the leaf lattice.
+#[cfg(feature = "crypto")]
+fn c05_strict(rep: &mut Report, thorough: bool) {
+    use crate::glue::to_params;
+    use crate::validators::*;
+    let zoo = load_zoo();
+    let ca_z = zoo.iter().find(|z| z.kind == KeyKind::Ed25519 && z.name.contains("_1")).unwrap();
+    let leaf_z = zoo.iter().find(|z| z.kind == KeyKind::Ed25519 && z.name.contains("_2")).unwrap();
+    let ca_kp = rc_load(ca_z, Alg::Ed25519).unwrap();
+    let leaf_kp = rc_load(leaf_z, Alg::Ed25519).unwrap();
+    let mut space = cert_space(true, true);
+    // the leaf lattice: dimensions that make sense on an end-entity certificate under a strict validator
+    space.dims.retain(|d| matches!(d.name, "sans" | "dn" | "key_usages" | "ekus" | "crl_dps" | "custom_exts" | "key_id" | "serial" | "not_before"));
+    space.base.use_aki = true;
+    space.base.sans = vec![SanSpec::Dns("strict.example".into())];
+    let cas: Vec<CertState> = [IsCaSpec::Unconstrained, IsCaSpec::Constrained(0), IsCaSpec::Constrained(3)]
+        .iter()
+        .flat_map(|c| {
+            [KeyIdSpec::Sha256, KeyIdSpec::Pre(vec![1, 2, 3, 4, 5])].into_iter().map(move |k| {
+                let mut st = CertState::default();
+                st.dn = DnSpec(vec![(DnTypeSpec::O, StrKind::Utf8, "Strict".into()), (DnTypeSpec::Cn, StrKind::Utf8, "CA".into())]);
+                st.is_ca = *c;
+                st.key_usages = vec![5, 6];
+                st.key_id = k;
+                st.not_before = TimeSpec::ymd(2000, 1, 1);
+                st.not_after = TimeSpec::ymd(2100, 1, 1);
+                st
+            })
+        })
+        .collect();
+    for (ci, ca_st) in cas.iter().enumerate() {
+        let ca = to_params(ca_st).unwrap().self_signed(&ca_kp).unwrap();
+        let sec = Section::new(&format!("openssl-x509-strict/ca{}", ci), "every leaf of levels k<=2 (thorough 3) over the conformant end-entity dimensions, issued under a conformant CA (key usage, SKI, basicConstraints): OpenSSL X509_verify_cert with X509_V_FLAG_X509_STRICT accepts the pair").with_deadline(if thorough { 600 } else { 30 });
+        run::levels(&sec, &space, if thorough { 3 } else { 2 }, &|st, _| {
+            let mut out = Outcome::default();
+            // outside the time window or key usages that forbid the use under test are not profile matters
+            let mut st = st.clone();
+            // a validator must reject critical extensions it does not know: not a profile matter
+            if st.custom_exts.iter().any(|c| c.critical) {
+                return out;
+            }
+            st.not_after = TimeSpec::ymd(2090, 1, 1);
+            if st.not_before.unix > 1_700_000_000 {
+                st.not_before = TimeSpec::ymd(2001, 1, 1);
+            }
+            let r = guarded(|| to_params(&st).map_err(|e| rcgen::Error::X509(e)).and_then(|p| p.signed_by(&leaf_kp, &ca, &ca_kp)));
+            out.transitions = 18;
+            match r {
+                Ok(Ok(leaf)) => {
+                    out.digest = fnv(leaf.der());
+                    if let Err(e) = openssl_chain_flags(leaf.der(), &[], ca.der(), 1_717_200_000, Purpose::Any, false, true) {
+                        out.findings.push(Finding::new("PRF-OPENSSL-X509-STRICT", "CA -> leaf", e));
+                    }
+                }
+                other => out.unexpected_err = Some(format!("{:?}", other.map(|r| r.map(|_| ())))),
+            }
+            out
+        });
+        rep.add(sec);
+    }
 }
 
 fn finish_outcome(judge: &Judge, st: &CertState, ev: CertEval) -> Outcome {
